@@ -31,7 +31,9 @@ impl<'a> RtcpPacketParser<'a> for Bye<'a> {
             });
         }
 
-        if reason_len_offset < data.len() {
+        // the trailing padding is not part of the packet contents
+        let padding = parser::parse_padding(data).unwrap_or(0) as usize;
+        if reason_len_offset + padding < data.len() {
             let reason_len = data[reason_len_offset] as usize;
             if reason_len_offset + 1 + reason_len > data.len() {
                 return Err(RtcpParseError::Truncated {
